@@ -108,7 +108,7 @@ def main():
                     pkg, name = t.split("::")
                     top = name.split("/")[0]
                     ok = False
-                    for _ in range(3):
+                    for _ in range(8):
                         rc, out = sh(["go", "test", "-vet=off", "-count=1", "-run", "^" + top + "$", pkg], cwd=m, timeout=900)
                         if rc == 0:
                             ok = True
@@ -137,7 +137,7 @@ def main():
         shutil.copy(demo, dst)
         mrun = re.search(r"-run[ =]+['\"]?([^\s'\"]+)", first)
         runpat = mrun.group(1) if mrun else "Seed"
-        cmd = ["go", "test", "-vet=off", "-count=1", "-run", runpat, "."]
+        cmd = ["go", "test"] + (["-tags", "verif"] if "-tags verif" in first else []) + ["-vet=off", "-count=1", "-run", runpat, "."]
         rc1, out1 = sh(cmd, cwd=os.path.join(wt, pkgdir), timeout=900)
         sh("git apply -R %s" % patch, cwd=wt)
         rc0, out0 = sh(cmd, cwd=os.path.join(wt, pkgdir), timeout=900)
